@@ -297,3 +297,77 @@ Example C06_ex_prv_generated :
   PrvEmitProofs.emit_twice (PRV_SKIPDUPNULL + PRV_ZERO) None = Ok [(3, 10, 0)].
 Proof. vm_compute. repeat split. Qed.
 (* ==== end of block (unit prv) ==== *)
+
+(* ==== begin of block (bay channels from source, unit chan) ==== *)
+(* The channel layer of the bay model is the REGENERATED src/emu/chan.c (Gen/Chan_gen.v, translated on every run).
+   CRep relates a BayDefs channel with the C channel (dirty flag, the three property words at the generated enum
+   constants, registered dirty callback, last_value, data.value, the first n <= MAX_CHAN_STACK stack cells bottom
+   first).  For a registered channel c of any bay b, any channel kind and any property combination (raw model
+   channels, system channels with CHAN_IGNORE_DUP, mux outputs with DIRTY_WRITE + ALLOW_DUP, clean or dirty):
+     - BayDefs.chan_set / chan_push / chan_pop refuse (with an error other than "no such channel") exactly when
+       the generated function returns -1 (never a NULL dereference); when they accept, the generated function
+       accepts, CRep holds between the new channels, nothing else of the bay changes, the caller's out cell is
+       untouched, and the bay's dirty callback was called (once) iff BayDefs appended c to the dirty list;
+     - the generated chan_read stores the value BayDefs.chan_read returns;
+     - the generated chan_flush fails on a clean channel (BayDefs.flush_all: E_FLUSH) and otherwise yields the
+       channel BayDefs.flushed describes (last_value := current value, clean);
+     - the channel BayDefs.mk_chan creates is represented by the zeroed C channel with those property words. *)
+From OV Require Emu.ChanPre Gen.Chan_gen Proofs.BayChanProofs.
+Theorem C06_bay_channels_from_source : forall b c bch sx st,
+  nth_error (b_chans b) c = Some bch -> BayChanProofs.CRep bch (ChanPre.ch st) -> ChanPre.cb_ret sx = 0 ->
+  (forall v, BayChanProofs.write_rel b c sx st (Chan_gen.chan_set (Some tt) (BayChanProofs.inj v)) (chan_set b c v)) /\
+  (forall v, BayChanProofs.write_rel b c sx st (Chan_gen.chan_push (Some tt) (BayChanProofs.inj v)) (chan_push b c v)) /\
+  (forall v, BayChanProofs.write_rel b c sx st (Chan_gen.chan_pop (Some tt) (BayChanProofs.inj v)) (chan_pop b c v)) /\
+  ChanPre.exec (Chan_gen.chan_read (Some tt) (Some ChanPre.LOut)) sx st =
+    Ok {| ChanPre.ch := ChanPre.ch st; ChanPre.out := BayChanProofs.inj (chan_read bch); ChanPre.ncb := ChanPre.ncb st |} /\
+  (if c_dirty bch
+   then exists st', ChanPre.exec (Chan_gen.chan_flush (Some tt)) sx st = Ok st' /\ BayChanProofs.CRep (flushed bch) (ChanPre.ch st') /\
+                    ChanPre.out st' = ChanPre.out st /\ ChanPre.ncb st' = ChanPre.ncb st
+   else ChanPre.exec (Chan_gen.chan_flush (Some tt)) sx st = Err ChanPre.E_FAIL) /\
+  (forall stack dw allow ign, BayChanProofs.CRep (mk_chan stack dw allow ign) (BayChanProofs.c_chan0 stack dw allow ign)).
+Proof. exact BayChanProofs.bay_channels_from_source. Qed.
+Print Assumptions C06_bay_channels_from_source.
+(* ==== end of block (bay channels from source) ==== *)
+
+(* ==== begin of block (mux callbacks from source, unit mux) ==== *)
+(* The mux callbacks of the bay model are the REGENERATED src/emu/mux.c (Gen/Mux_gen.v: default_select,
+   select_input, cb_select, cb_reselect, cb_input, translated on every run over Emu/MuxPre.v, whose state is a
+   BayDefs bay and whose primitives bay_enable_cb / bay_disable_cb / chan_read / chan_set have the meaning
+   BayDefs gives them).  For every bay b and every initialised mux m of it, started on any C-side bookkeeping:
+     - the generated cb_select, called on the select channel with the mux as argument, ends in the bay
+       BayDefs.cb_select computes (disable the old input's callback, run the select function, enable the new
+       one, write the output), and refuses exactly when BayDefs refuses: a missing channel / input (E_WIRING,
+       a wild pointer in C) is a trap, every other refusal is `return -1`;
+     - the same for cb_reselect (from any channel) and for cb_input of every input, called on that input's channel;
+     - the generated default_select computes BayDefs.run_select SelDefault (null -> no input, index out of
+       range -> refusal).
+   The custom select functions of thread.c enter through the environment (custom_of = BayDefs.run_select). *)
+From OV Require Emu.MuxPre Gen.Mux_gen Proofs.BayMuxGenProofs.
+Theorem C06_mux_callbacks_from_source : forall b m x isel cell,
+  nth_error (b_muxes b) m = Some x -> mx_init x = true ->
+  let sx := BayMuxGenProofs.env_of m x in
+  let st := {| MuxPre.ms_bay := b; MuxPre.ms_isel := isel; MuxPre.ms_cell := cell |} in
+  BayMuxGenProofs.cb_rel (run_dcb b (DSelect m)) (MuxPre.exec (Mux_gen.cb_select (Some (mx_sel x)) (Some MuxPre.VMux)) sx st) /\
+  (forall c, BayMuxGenProofs.cb_rel (run_dcb b (DReselect m)) (MuxPre.exec (Mux_gen.cb_reselect (Some c) (Some MuxPre.VMux)) sx st)) /\
+  (forall i ic, nth_error (mx_ins x) i = Some ic ->
+     BayMuxGenProofs.cb_rel (run_dcb b (DInput m i)) (MuxPre.exec (Mux_gen.cb_input (Some ic) (Some (MuxPre.VInput (Z.of_nat i)))) sx st)) /\
+  (forall key, Mux_gen.default_select (Some tt) (MuxPre.inj key) (Some tt) sx st =
+     match run_select SelDefault (length (mx_ins x)) key with
+     | Ok o => Ok (tt, {| MuxPre.ms_bay := b; MuxPre.ms_isel := isel; MuxPre.ms_cell := option_map Z.of_nat o |})
+     | Err _ => Err MuxPre.E_FAIL
+     end).
+Proof. exact BayMuxGenProofs.mux_callbacks_from_source. Qed.
+Print Assumptions C06_mux_callbacks_from_source.
+
+(* the custom select functions of src/emu/thread.c, regenerated too: on the state values the emulator writes
+   (below 2^32: `(enum thread_state) value.i` keeps the low 32 bits) thread_select_running / thread_select_active
+   compute BayDefs.run_select SelRunning / SelActive, i.e. the `custom_of` of the theorem above *)
+Theorem C06_thread_select_from_source : forall (running : bool) sx st key, BayMuxGenProofs.small_key key ->
+  MuxPre.with_out_pinput ((if running then Mux_gen.thread_select_running else Mux_gen.thread_select_active) (Some tt) (MuxPre.inj key)) sx st =
+  match run_select (if running then SelRunning else SelActive) (length (mx_ins (MuxPre.mx sx st))) key with
+  | Ok o => Ok (option_map Z.of_nat o, {| MuxPre.ms_bay := MuxPre.ms_bay st; MuxPre.ms_isel := MuxPre.ms_isel st; MuxPre.ms_cell := option_map Z.of_nat o |})
+  | Err _ => Err MuxPre.E_FAIL
+  end.
+Proof. exact BayMuxGenProofs.thread_select_eq. Qed.
+Print Assumptions C06_thread_select_from_source.
+(* ==== end of block (mux callbacks from source) ==== *)
